@@ -18,6 +18,40 @@ def open_after_torn(chk, repo):
     open_rules(chk, repo, "C09-X5", ('lookup', 'hit', 'write', 'parse'), "open_image with a torn cache (read_cache raises CachingError with a cause): the image is parsed once and nothing is written unless create_cache is set")
 
 
+def x1(chk, op):
+    """C09-X1 (exception flow): the JSONDecodeError of a torn index ends in open_image's fallback on every call chain"""
+    sites = json_loads_sites(op)
+    if not sites:
+        raise AnalysisError("anchor vanished: json.loads on the cache read path")
+    oi = op.fi(OPEN_IMAGE)
+    for fi, call in sites:
+        chains = chains_to(op, OPEN_IMAGE, fi, call)
+        if not chains:
+            raise AnalysisError(f"no call chain from open_image to {fi.key}")
+        for chain in chains:
+            fate = exception_fate(op, chain, "json.JSONDecodeError")
+            desc = " <- ".join(f.qualname for f, _ in chain)
+            if fate[0] == "handled":
+                _, hfi, handler, cls = fate
+                in_open_image = hfi.key == OPEN_IMAGE
+                if not in_open_image and hfi.key in {f_.key for f_, _ in chain}:
+                    # caught in a helper on the way up: what open_image does with what that helper returns is decided by evaluating
+                    # open_image with a torn cache (C09-X5)
+                    raise AnalysisError(f"{op.where(fi)}: JSONDecodeError on chain {desc} is caught in {hfi.qualname}, not in open_image itself; whether the open then parses the image is decided by evaluation (C09-X5)")
+                chk.require(in_open_image, "C09-X1", op.where(fi),
+                            f"JSONDecodeError on chain {desc} ends in open_image's handler `except {norm(handler.type) if handler.type else ''}` (parse fallback)",
+                            f"JSONDecodeError on chain {desc} is swallowed in {hfi.qualname}, which then returns a wrong/None result instead of the parse fallback",
+                            key=f"{fi.key}:json.loads:fate", sample={"chain": desc, "handled_in": hfi.qualname})
+            else:
+                cls = fate[1]
+                cname = cls if isinstance(cls, str) else f"{cls[1].name}.{cls[2].name}"
+                chk.fail("C09-X1", op.where(fi),
+                         f"a torn/empty index makes {short(call, 50)} raise json.JSONDecodeError; on chain {desc} no handler catches it "
+                         f"(it leaves open_image as {cname}): default open_alos2 fails until the cache file is deleted",
+                         key=f"{fi.key}:json.loads:fate")
+
+
+
 def run(chk, repo):
     op = OpenPath(repo)
     chk.explanation = (
@@ -53,33 +87,10 @@ def run(chk, repo):
         chk.require(plain, "C09-X0", op.where(cc), "the file content is exactly encode(data)",
                     f"the file content is {short(arg, 80) if arg is not None else None}, not the bare encode(data) document", key="create_cache:content")
 
-    # X1
+    chk.attempt(open_after_torn, chk, repo)
+    chk.attempt(x1, chk, op, covered_by="open_after_torn", rules=("C09-X1",))
     sites = json_loads_sites(op)
-    if not sites:
-        raise AnalysisError("anchor vanished: json.loads on the cache read path")
     oi = op.fi(OPEN_IMAGE)
-    for fi, call in sites:
-        chains = chains_to(op, OPEN_IMAGE, fi, call)
-        if not chains:
-            raise AnalysisError(f"no call chain from open_image to {fi.key}")
-        for chain in chains:
-            fate = exception_fate(op, chain, "json.JSONDecodeError")
-            desc = " <- ".join(f.qualname for f, _ in chain)
-            if fate[0] == "handled":
-                _, hfi, handler, cls = fate
-                in_open_image = hfi.key == OPEN_IMAGE
-                chk.require(in_open_image, "C09-X1", op.where(fi),
-                            f"JSONDecodeError on chain {desc} ends in open_image's handler `except {norm(handler.type) if handler.type else ''}` (parse fallback)",
-                            f"JSONDecodeError on chain {desc} is swallowed in {hfi.qualname}, which then returns a wrong/None result instead of the parse fallback",
-                            key=f"{fi.key}:json.loads:fate", sample={"chain": desc, "handled_in": hfi.qualname})
-            else:
-                cls = fate[1]
-                cname = cls if isinstance(cls, str) else f"{cls[1].name}.{cls[2].name}"
-                chk.fail("C09-X1", op.where(fi),
-                         f"a torn/empty index makes {short(call, 50)} raise json.JSONDecodeError; on chain {desc} no handler catches it "
-                         f"(it leaves open_image as {cname}): default open_alos2 fails until the cache file is deleted",
-                         key=f"{fi.key}:json.loads:fate")
-
     # X4: an empty or cut index text must not trip anything before json.loads sees it
     chk.rule("C09-X4", "the raw index text is not indexed (text[0], text[-1], ...) outside the error translation: an empty file raises IndexError there", 1)
     n_txt = 0
@@ -138,7 +149,6 @@ def run(chk, repo):
                 bad.append(e)
     chk.require(not bad, "C09-X3", op.where(oi), "no file-system write is reachable from open_image outside create_cache",
                 f"the read/fallback path writes: {bad[:3]}", key="open_image:fallback-writes")
-    chk.attempt(open_after_torn, chk, repo)
     chk.attempt(lookup_model, chk, repo)
     chk.attempt(decode_prefixes, chk, repo)
     chk.count("functions", len(reach))
